@@ -13,7 +13,7 @@ import cli
 from impl import trees, treeinput, transform, quiet, mk_leaf, mk_node
 
 ID = "C01"
-MODULE = ['TT.Props.C01', 'TT.Props.C01More', 'TT.Props.C01Readers', 'TT.Props.C01Disco', 'TT.Props.C01Disco2', 'TT.Props.C01Src', 'TT.Props.C03Words', 'TT.Props.C01Disco3', 'TT.Props.C01Tiger2']
+MODULE = ['TT.Props.C01', 'TT.Props.C01More', 'TT.Props.C01Readers', 'TT.Props.C01Disco', 'TT.Props.C01Disco2', 'TT.Props.C01Src', 'TT.Props.C03Words', 'TT.Props.C01Disco3', 'TT.Props.C01Tiger2', 'TT.Props.C03Xml']
 RULE = ("corpora of 1..4 sentences written by a grammar-directed encoder with random layout: brackets (every whitespace "
         "layout, empty/explicit root label, junk between groups), discobrackets, export v3/v4 (headers, comment and "
         "secondary-edge columns, arbitrary consistent 5xx numbering, lines in any order), TIGER-XML (attribute and <nt> "
